@@ -26,6 +26,7 @@ type Request struct {
 	ArgsS  []string `json:"args"`
 	Queued bool     `json:"queued,omitempty"`
 	Reply  string   `json:"reply"`
+	T      int64    `json:"-"` // wall clock (ns) at which the request was processed
 }
 
 // LogEntry is one *executed* command (effects applied, or a read served).
@@ -346,7 +347,7 @@ func (s *Server) serve(cs *connState) {
 // handle processes one request under the lock.
 func (s *Server) handle(cs *connState, name string, args [][]byte) resp.Reply {
 	s.seq++
-	req := Request{Seq: s.seq, Conn: cs.id, Cmd: name, Args: args, ArgsS: quoteArgs(args)}
+	req := Request{Seq: s.seq, Conn: cs.id, Cmd: name, Args: args, ArgsS: quoteArgs(args), T: time.Now().UnixNano()}
 	var reply resp.Reply
 	defer func() {
 		req.Reply = resp.String(reply)
